@@ -136,7 +136,7 @@ FunctorManager::Env FunctorManager::createEnv(Context& caller, unsigned id, cons
     {
       Context::MemorySlot& slot = _ctx->_storage_pool[n];
       *slot.symbol = *(proto->_storage_pool[n].symbol);
-      slot.value = Value(static_cast<const Type&>(*slot.symbol));
+      slot.value = std::move(Value(static_cast<const Type&>(*slot.symbol)).to_lvalue(true));
     }
   }
 
